@@ -27,6 +27,12 @@ func (in *Interp) intrinsic(fn *ssa.Function) (intrinsicFn, bool) {
 	if o := fn.Origin(); o != nil {
 		key = o.String()
 	}
+	if in.modPath != "" && strings.HasPrefix(key, in.modPath+"/") {
+		if h, ok := repoIntrinsics[key[len(in.modPath):]]; ok {
+			in.ex.stats.Stubs["native model: "+key] = true
+			return h, true
+		}
+	}
 	h, ok := intrinsics[key]
 	if ok {
 		in.ex.stats.Stubs["native model: "+key] = true
@@ -48,6 +54,7 @@ func argInt(in *Interp, v Value) int {
 }
 
 var verifIntrinsics map[string]intrinsicFn
+var repoIntrinsics map[string]intrinsicFn
 
 func init() {
 	nondet := func(w uint8) intrinsicFn {
@@ -512,6 +519,22 @@ func init() {
 	reg("sync/atomic.LoadPointer", func(in *Interp, fr *frame, args []Value) Value { return in.loadFrom(args[0]) })
 	reg("sync/atomic.StorePointer", func(in *Interp, fr *frame, args []Value) Value { in.storeTo(args[0], args[1]); return nil })
 
+	// --- repo helpers built on unsafe / runtime introspection ---
+	repoIntrinsics = map[string]intrinsicFn{
+		// *(*string)(unsafe.Pointer(&b)): same bytes viewed as a string (aliasing with later writes to b is not modelled)
+		"/pkg/util.BytesToString": func(in *Interp, fr *frame, args []Value) Value {
+			return mkStr(bytesOfSlice(args[0].(Slice)))
+		},
+		"/pkg/util.StringToBytes": func(in *Interp, fr *frame, args []Value) Value {
+			return sliceOfBytes(append([]*Term(nil), strBytes(args[0])...))
+		},
+	}
+	reg("runtime.Caller", func(in *Interp, fr *frame, args []Value) Value {
+		return Tuple{BV(64, 0), "", BV(64, 0), False}
+	})
+	reg("runtime.Callers", func(in *Interp, fr *frame, args []Value) Value { return BV(64, 0) })
+	reg("runtime.FuncForPC", func(in *Interp, fr *frame, args []Value) Value { return (*Value)(nil) })
+
 	// --- runtime / misc ---
 	reg("runtime.Stack", func(in *Interp, fr *frame, args []Value) Value { return BV(64, 0) })
 	reg("runtime.Gosched", func(in *Interp, fr *frame, args []Value) Value { in.sched.maybePreempt(); return nil })
@@ -557,7 +580,7 @@ func init() {
 	reg("math/rand.Float64", func(in *Interp, fr *frame, args []Value) Value { return float64(0.5) })
 	reg("math/rand.Intn", func(in *Interp, fr *frame, args []Value) Value {
 		n := args[0].(*Term)
-		v := in.ex.fresh("rand.Intn", 64)
+		v := in.ex.freshInternal("rand.Intn", 64)
 		in.ex.assume(Ult(v, n))
 		return v
 	})
@@ -630,7 +653,7 @@ func (in *Interp) invokeMethod(fr *frame, recv Iface, name string) Value {
 func (in *Interp) timeNow() Value {
 	tt := in.prog.ImportedPackage("time").Type("Time").Type()
 	v := zero(tt).(Struct)
-	n := in.ex.fresh("clock", 64)
+	n := in.ex.freshInternal("clock", 64)
 	// non-decreasing and non-negative, well below overflow
 	prev := in.lastClock
 	if prev == nil {
@@ -1001,7 +1024,7 @@ func (in *Interp) sprintf(format Value, args []Value) Value {
 				continue
 			}
 			// opaque text embedded in a larger string: the result is an opaque blob
-			out = &SymStr{opq: in.ex.fresh("fmt.opaque", 64)}
+			out = &SymStr{opq: in.ex.freshInternal("fmt.opaque", 64)}
 			in.ex.stats.Stubs["fmt: symbolic number embedded in formatted text (opaque result)"] = true
 			lit.Reset()
 			return out
@@ -1077,7 +1100,7 @@ func (in *Interp) fmtScalar(verb byte, flags string, v Value, t types.Type) Valu
 		if (verb == 'd' || verb == 'v') && flags == "" {
 			return fmtInt(x, signed)
 		}
-		return &SymStr{opq: in.ex.fresh("fmt.num", 64)}
+		return &SymStr{opq: in.ex.freshInternal("fmt.num", 64)}
 	case float64:
 		return fmt.Sprintf("%"+flags+string(verb), x)
 	case Slice:
